@@ -5,6 +5,7 @@ containers   4 container kinds (histogram both filled and set_bins with underflo
              second cycle identical; write A, write shorter B to the same path, read -> B.
 models       4 parametric models (with model-function source text, permuted parameter order, defaults != 1, model-referenced sources incl. disabled / relative /
              matrix) and their model functions on their own: observables incl. evaluation at a second parameter vector, second cycle.
+named        xy fits whose model function is given by a library name ('linear_model', 'exp', ...) or by a SymPy definition string.
 custom       custom fits (cost function source text) with explicitly set parameter values, fixed / limited / constrained parameters, fitted or not.
 constraints  simple and matrix constraints in absolute / relative and cov / cor form with values != 1: cost at random points before / after.
 fits         fits of the serialisable types (xy, indexed, histogram, unbinned), fitted or not, with / without asymmetric errors, with disabled /
@@ -683,6 +684,67 @@ def run_fits(case):
 
 
 # ---------------------------------------------------------------------------------------------------
+# model functions given by library name or by a SymPy definition string
+
+_NAMED = ["linear_model", "line", "quadratic_model", "quadratic", "cubic_model", "exponential_model", "exp"]
+_SYMPY = ["{n}: x a b={d0} -> a*x + b", "{n}: x A tau={d0} -> A*exp(-x/tau)", "{n}: x a w={d0} phi={d1} -> a*sin(w*x + phi)", "{n}: x p q={d0} -> p*sqrt(x) + q*x**2",
+          "x c0 c1={d0} -> c0 + c1*x"]
+
+
+@st.composite
+def strat_named(draw, tier="quick"):
+    how = draw(st.sampled_from(["library", "sympy", "sympy"]))
+    n = draw(st.integers(4, 8))
+    if how == "library":
+        mf = draw(st.sampled_from(_NAMED))
+    else:
+        mf = draw(st.sampled_from(_SYMPY)).format(n=draw(st.sampled_from(["f", "g", "my_model"])), d0=draw(st.sampled_from([2.0, 1.5, 0.75])), d1=draw(st.sampled_from([0.5, 1.25])))
+    return {"model": mf, "how": how, "x": np.cumsum(draw(st.lists(st.floats(0.3, 1.5), min_size=n, max_size=n))).tolist(), "y": draw(st.lists(st.floats(0.5, 9.0), min_size=n, max_size=n)),
+            "e": draw(st.floats(0.1, 0.6)), "values": draw(st.lists(st.floats(0.6, 2.2), min_size=4, max_size=4)), "pts": draw(st.lists(st.lists(st.floats(0.5, 2.5), min_size=4, max_size=4), min_size=2, max_size=3)),
+            "fix_first": draw(st.booleans()), "via": draw(st.sampled_from(["own", "base"]))}
+
+
+def run_named(case):
+    kafe2 = _k("kafe2")
+    base = _k("kafe2.fit._base")
+    with guard(f"build[{case['how']}]"):
+        fit = kafe2.XYFit([np.asarray(case["x"], float), np.asarray(case["y"], float)], case["model"])
+        fit.add_error("y", case["e"])
+        names = list(fit.parameter_names)
+        fit.set_all_parameter_values([case["values"][j % 4] for j in range(len(names))])
+        if case["fix_first"]:
+            fit.fix_parameter(names[0])
+
+    def obs(f):
+        o = {"names": list(f.parameter_names), "values": np.asarray(f.parameter_values, float).copy(), "function_name": f.model_function.name,
+             "formatter_name": f.model_function.formatter.name, "fixed": sorted(f._fitter.fixed_parameters)}
+        keep = o["values"].copy()
+        costs = []
+        for pt in case["pts"]:
+            f.set_parameter_values(**{nm: pt[j % 4] for j, nm in enumerate(o["names"]) if nm not in o["fixed"]})
+            costs.append(float(f.cost_function_value))
+        f.set_all_parameter_values(keep)
+        o["costs"] = np.array(costs)
+        return o
+    with guard("observables"):
+        o0 = obs(fit)
+    path = _path("c09_named.yml")
+    with guard(f"to_file[{case['how']}]"):
+        fit.to_file(path)
+    with guard(f"from_file[{case['how']}]"):
+        r = kafe2.XYFit.from_file(path) if case["via"] == "own" else base.FitBase.from_file(path)
+    with guard("reloaded observables"):
+        o1 = obs(r)
+    _compare_obs(f"named[{case['how']}]", o0, o1)
+    with guard("to_file(second cycle)"):
+        r.to_file(_path("c09_named2.yml"))
+        r2 = kafe2.XYFit.from_file(_path("c09_named2.yml"))
+        o2 = obs(r2)
+    _compare_obs(f"named[{case['how']}]:second-cycle", o1, o2)
+    return {"nontrivial": True, "labels": [case["how"], case["model"].split(":")[-1].strip()[:30]]}
+
+
+# ---------------------------------------------------------------------------------------------------
 # corpus of shipped YAML files
 
 def _corpus():
@@ -724,6 +786,7 @@ SUBS = [
     Sub("constraints", lambda tier: strat_constraints(tier), run_constraints, quick=800, thorough=20000, about="constraints written / read back through their own class"),
     Sub("models", lambda tier: strat_models(tier), run_models, quick=800, thorough=20000, about="parametric models and model functions written / read back through their own class"),
     Sub("custom", lambda tier: strat_custom(tier), run_custom, quick=400, thorough=8000, about="custom fits: parameter values, fixed / limited / constrained parameters, cost, results, refit"),
+    Sub("named", lambda tier: strat_named(tier), run_named, quick=320, thorough=6000, about="fits whose model function is given by a library name or a SymPy definition string"),
     Sub("fits", lambda tier: strat_fits(tier), run_fits, quick=480, thorough=10000, about="fits written / read back: observables, stored results, second cycle, refit"),
     Sub("corpus", strat_corpus, run_corpus, quick=96, thorough=200, shards=4, about="YAML files shipped with the repository: load, save, reload"),
 ]
